@@ -64,7 +64,8 @@ def run(prop, tier, seed, profiles, n_quick, n_thorough, also=(), assumptions=()
                     n_shape += 1
                     if sd:
                         corr.append(dict(kind="sql_model_query_shape", stmt=stt["id"], seed=p.get("seed"), profile=p.get("profile"), detail=sd))
-                if be == "sqlite" and stt["id"] in sqlm and not has_marker_risk(p):
+                if be == "sqlite" and stt["id"] in sqlm and not has_marker_risk(p) and "D64" not in r["trig"]:
+                    # (under D64 the rows a LIMIT keeps after a lost ORDER BY are the engine's choice: nothing to compare)
                     mf = sqlm[stt["id"]]
                     if isinstance(mf, str):
                         corr.append(dict(kind="sql_model_refuses", stmt=stt["id"], seed=p.get("seed"), profile=p.get("profile"), model=mf))
